@@ -27,18 +27,20 @@ claims={
         "A nil-error return of ParseCcelWithTdQuote implies both gates on the same quote and returns ReplayAndExtract's result for a bank holding every RTMR of the quote at its own index; error returns carry no state; default options bind REPORT_DATA to the nonce."),
  "C20":("CFG/dominance structure of the retry loop + min-shape and loop-carried-value rules on SSA",
         "First success returned intact from the single attempt site that dominates every return; every retry passes a blocking select with a capped, loop-carried timer and a once-created deadline context whose case returns an error; default configuration. Elapsed-time bounds are not decided."),
- "C08":("layered contracts: per-helper success-path gates + exhaustive pairing table over the option structs + operands of the returned multierr.Combine",
+ "C08":("layered contracts: per-helper success-path gates + exhaustive pairing table over the option structs + operands of the returned multierr.Combine + crash-obligation discharge below validate.TdxQuote",
         "Leaf contracts (exact match / skip when empty / size, RTMR index pairing, any-of membership, component-wise minimum, fixed-0/fixed-1 masks), exhaustive wiring of every option field to the same-named quote field and abi size, the structural pre-check first, and all results combined into the returned error."),
  "C13":("OID table + single-store/guard rules on the selection loops + range gates + structure gates + per-call-site Unmarshal discipline + assertion dominance",
         "OID values, one OID-guarded store per result field from the same element with its own size, index-consistent component loop over all 16 indices for every element (order independence), range gates before narrowing, sequence sizes, error and leftover checks on all asn1.Unmarshal sites, comma-ok assertions."),
  "C14":("type-driven bijection between policy message fields and option fields + range gates + exhaustive length-check table with same-named abi constants",
         "Every option field equals the same-named policy field, every policy field is consumed, 16-bit minimums are range-gated, and every byte-string option (including the minimum TEE TCB SVN) is length-checked with the abi constant of the same name before conversion succeeds."),
  "C15":("must-pass-through gates over an access-path heap with opaque-call havoc (device writes) + provenance of request/response buffers",
-        "Two-step device protocol with the caller's report data and the device-written TD report relayed through full-width copies, all result/status/OutLen gates enforced for the success return, which is exactly hdr.Data[:OutLen] of the header the device wrote; provider results returned verbatim when supported, fallback otherwise; GetQuote parses exactly the raw bytes."),
+        "Two-step device protocol with the caller's report data and the device-written TD report relayed through full-width copies, all result/status/OutLen gates enforced for the success return, which is exactly hdr.Data[:OutLen] of the header the device wrote; provider results returned verbatim when supported, fallback otherwise; GetQuote parses exactly the raw bytes; every index/slice/dereference below GetRawQuote is discharged."),
  "C19":("must-pass-through gates on main with no-return calls as terminators + exit-code table by dominance + typed-error wrap discipline + flag/field/size pairing table + non-nil population rule",
-        "Exit 0 only behind verification and validation with the effective options; exit codes by error source; typed download errors producible and preserved by every wrap (%w); errors.As drives code 3; each flag overrides exactly its same-named field with the right size and only when set; parseConfig leaves no nil sub-message."),
+        "Exit 0 only behind verification and validation with the effective options; exit codes by error source; typed download errors producible and preserved by every wrap (%w); errors.As drives code 3; each flag overrides exactly its same-named field with the right size and only when set; parseConfig leaves no nil sub-message; index/slice bounds, assertions and loops of the tool's own code are discharged."),
  "C09":("wire-layout extraction from SSA (writes of serialisers, field sources of parsers), tiling, parser/serialiser agreement, independent oracle from proto/tdx.proto, narrowing-conversion rule, term tables for the variable tail",
         "Same field <-> same bytes in both directions without gap or overlap for the fixed parts, agreeing with a layout derived independently from the .proto; the stated slices, size/type headers, exact size equalities and concatenation order for the variable tail; pinned constants; the validity predicate closing the parser and opening the serialiser. Byte equality on concrete inputs is a consequence, not what is decided."),
+ "C10":("crash-obligation discharge on the inlined call trees of the entry points: linear arithmetic over lengths with the dominating gates and call-site facts (bounds), non-nil provenance (dereferences), assertion/division/make rules, narrowing and wrap-around rules, counted-loop and acyclic-call-tree rule (termination); trace partitioning over the option flags",
+        "Every index, slice, encoding/binary access, pointer dereference, non-comma-ok assertion, explicit panic, make, division, narrowing conversion and loop reachable from the public parsing, serialisation, verification, validation, chain-extraction and PCK-extension entry points is shown safe for all inputs at once from the checks that dominate it (inputs unconstrained: any bytes, any message shape with any nil pointer and any field length, any getter response). Panics inside dependencies, stack depth and memory are outside the analysed program; lengths are assumed below 2^31."),
  "C16":("effects analysis by alias roots over provenance terms: enumeration of every potential write (append, copy, indexed store, PutUintN, non-read-only library callee, message-field store) on the inlined call trees + single-writer rule for package variables",
         "Parsed byte slices alias only memory cloned inside the parse; no potential write below the verification, validation, chain-extraction and serialisation entry points has a destination rooted in the quote message, the raw input, option byte strings or package variables; package variables on those paths are read-only after initialisation. A sufficient condition for race freedom on a shared quote for every schedule."),
 }
